@@ -18,6 +18,39 @@ import vcheck
 from checks import common, funcs
 
 
+def _domain(n, k):
+    """a tunnel domain of exactly n characters (labels of at most 63)"""
+    labels = []
+    left = n - 4            # ".com"
+    while left > 0:
+        ln = min(left, [63, 40, 17, 62][k % 4])
+        if left - ln == 1:
+            ln -= 1         # never leave room for a dot only
+        labels.append("abcdefghij"[(k + len(labels)) % 10] * ln)
+        left -= ln + 1
+    return ".".join(labels) + ".com"
+
+
+def margin_specs(tier, seed):
+    """The real client with little room between the tunnel domain and the -M limit (24..41 characters): the limit binds
+    every message of the handshake, not only data chunks (the handshake itself may fail - the names are judged)."""
+    out = []
+    Ls = [100, 101, 127, 152] if tier == "quick" else list(range(100, 169, 3)) + [152]
+    k = 0
+    for L in Ls:
+        for margin in ((24, 25, 31, 32, 33, 39, 40, 41) if tier == "quick" else range(24, 42)):
+            n = L - margin
+            if n > 128 or n < 8:
+                continue
+            k += 1
+            out.append({"seed": seed * 100000 + 50000 + k,
+                        "sess": {"qtype": common.QTYPES[k % 7], "maxlen": L, "domain": _domain(n, k), "lazy": k % 2,
+                                 "downenc": common.DOWNENCS[k % 5]},
+                        "relay": {}, "pkts": [[300, "C0", "S", "rand", 300], [900, "S", "C0", "rand", 300]],
+                        "dur_ms": 6000, "label": "margin/L%d/m%d" % (L, margin)})
+    return out
+
+
 def main(tier):
     chk = vcheck.Check("C08", "exploration", tier)
     seed = vcheck.seed() + 8
@@ -28,6 +61,7 @@ def main(tier):
     files = [p for p, n, rc, err in prod if n > 0]
     sp = common.transfer_specs(tier, seed, n_quick=28, n_thorough=200, dur_ms=12000, extra=False)
     sp = [s for i, s in enumerate(sp) if s["label"].endswith("/clean") or i % 5 == 0]
+    sp += margin_specs(tier, seed)
     results = common.run_specs(sp, ["C08"])
     wpath = os.path.join(vcheck.scratch(), "wire-%d.ndjson" % os.getpid())
     nw = 0
